@@ -627,6 +627,17 @@ func (f *Frame) applyModifies(con *Contract, env *Env, st *State, reach Term, po
 			srt := f.vc.compSort(tg.key)
 			inner := strings.TrimSuffix(strings.TrimPrefix(srt, "(Array Int "), ")")
 			fv := f.vc.freshConst(tg.key+".new", inner)
+			if closedEverywhere {
+				// what the callee stored there exists when it returns (heap closure)
+				switch inner {
+				case sRef:
+					f.vc.assume(T(sBool, "(< (alloc %s) %s)", fv.S, n.now.S))
+				case sSl:
+					f.vc.assume(T(sBool, "(< (alloc (Sl.base %s)) %s)", fv.S, n.now.S))
+				case "(Array Int Ref)":
+					f.vc.assumeOwned(fv, T(sBool, "(forall ((i!q Int)) (! (< (alloc (select %[1]s i!q)) %[2]s) :pattern ((select %[1]s i!q))))", fv.S, n.now.S))
+				}
+			}
 			n.set(tg.key, f.vc.define(tg.key, T(old.Sort, "(store %s %s %s)", old.S, tg.ref.S, fv.S)))
 		}
 	}
